@@ -40,7 +40,19 @@ def cdf(dist, x):
 def make_chain(rnd):
     """(text, description): prefix or end-group start, 1-2 blocks of one directed repeat unit each"""
     nb = rnd.choice([1, 1, 2])
-    start = rnd.choice(["prefix", "prefix", "H_group", "heavy_group"])
+    start = rnd.choice(["prefix", "prefix", "H_group", "heavy_group", "alt_start"])
+    if start == "alt_start":
+        # two alternative start groups of unequal weight on the same descriptor kind, a suffix closes the chain: the molecule tells which one was picked
+        nb = 1
+        u = rnd.choice([x for x in UNITS if "F" not in x])
+        fam, mk = rnd.choice(DISTS)
+        from rdkit import Chem
+        from rdkit.Chem import Descriptors
+        mass = Descriptors.HeavyAtomMolWt(Chem.MolFromSmiles(u))
+        args = mk(mass, rnd)
+        w1, w2 = rnd.choice([(3, 1), (1, 4), (2, 0.5), (1, 1)])
+        text = "{[][<]" + u + "[>]; [<|" + repr(float(w1)) + "|][H], [<|" + repr(float(w2)) + "|]F [>]}" + f"|{fam}({', '.join(repr(float(a)) for a in args)})|" + rnd.choice(["CO", "[Si]"])
+        return text, dict(start=start, blocks=[dict(unit=u, mass=mass, fam=fam, args=args, start_group="[H]")], weights=(w1, w2))
     blocks = []
     text = ""
     for b in range(nb):
@@ -150,6 +162,26 @@ def check(rep):
                 rep.fail("oracle", f"{smi} of {text}: reported ensemble probability {reported:.6g}, generation produces it with probability {gen:.6g}", ident, expected=gen, observed=reported,
                          tags=tags if (abs(reported - code) <= 1e-6 * max(1e-12, code) + 1e-12 or sym_tags) else set())
             distinct.add((text, tuple(ns)))
+        elif desc["start"] == "alt_start":
+            w1, w2 = desc["weights"]
+            e, n, u = stoch[0], ns[0], desc["blocks"][0]["mass"]
+            started_with_F = "F" in smi
+            pstart = (w2 if started_with_F else w1) / (w1 + w2)
+            mstart = Descriptors.HeavyAtomMolWt(Chem.MolFromSmiles("F")) if started_with_F else 0.0
+            code3 = pstart * (cdf(e.distribution, mstart + n * u) - cdf(e.distribution, mstart + (n - 1) * u))
+            gen3 = pstart * (cdf(e.distribution, u) if n == 1 else cdf(e.distribution, n * u) - cdf(e.distribution, (n - 1) * u))
+            distinct.add((text, tuple(ns), started_with_F))
+            corr_ok = abs(reported - code3) <= 1e-6 * max(1e-12, code3) + 1e-12 or bool(sym_tags)
+            if not corr_ok:
+                rep.fail("correspondence", f"reported {reported} vs closed form of the search {code3} (start group picked with {pstart:.4g}) for {smi} of {text}", ident, expected=code3, observed=reported)
+            if abs(reported - gen3) > 1e-6 * max(1e-9, gen3) + 1e-10:
+                tags = set(sym_tags)
+                if started_with_F:
+                    tags.add("start_group_mass_counted")
+                if n == 1 and cdf(e.distribution, 0.0) > 1e-9:
+                    tags.add("first_interval_starts_at_cdf0")
+                rep.fail("oracle", f"{smi} of {text}: reported ensemble probability {reported:.6g}, generation produces it with probability {gen3:.6g}", ident, expected=gen3, observed=reported,
+                         tags=tags if corr_ok else set())
         else:
             # end-group start: the generator picks the start group with probability 1/2 (two end groups of weight 1) and may build the molecule from either end;
             # decided only for the massless start group, where the two paths are symmetric in the block factor
